@@ -40,14 +40,16 @@ def _replay_group(group):
   """group = (prefix history, [transitions sharing that prefix])."""
   impl = _W["impl"]
   prefix, trans = group
-  rm = impl.fresh()
-  for letter in prefix:
-    impl.step(rm, letter)
-  import copy
+  import zlib
+  impl.enum_keys = zlib.crc32(json.dumps(prefix).encode()) % 2 == 0
   out = []
   for t in trans:
+    # the whole history on a fresh manager, with the resolution table read after EVERY step (as calibrate() / quantize() do
+    # between two recipe updates): resolution is a pure function of the store in Recipe.tla, so reading it must change nothing
     rm2 = impl.fresh()
-    rm2._scope_configs = copy.deepcopy(rm._scope_configs)  # pylint: disable=protected-access
+    for letter in prefix:
+      impl.step(rm2, letter)
+      impl.resolve(rm2)
     letter = t["hist"][-1]
     got_last = impl.step(rm2, letter)
     exp = impl.export(rm2)
